@@ -145,16 +145,16 @@ func knownPredicate(pkgs []*packages.Package) func(*types.Func) bool {
 }
 
 type funcSrc struct {
-	sig  *types.Signature // for a local closure (decl is synthesised from the literal)
-	lit  *ast.FuncLit
+	sig *types.Signature // for a local closure (decl is synthesised from the literal)
+	lit *ast.FuncLit
 	// for a local closure: the variable and the end of the statement that defines it (a blank
 	// use is added there, because after inlining the variable may have no use left)
 	cvar   *types.Var
 	defEnd token.Pos
-	decl *ast.FuncDecl
-	pkg  *packages.Package
-	file string
-	ok   int // 0 unknown, 1 eligible, 2 not
+	decl   *ast.FuncDecl
+	pkg    *packages.Package
+	file   string
+	ok     int // 0 unknown, 1 eligible, 2 not
 }
 
 type inlineGroup struct {
